@@ -86,6 +86,106 @@ def chained_variants(rng, s):
     return out
 
 
+def probe_shared_declarations(seed, n):
+    """one declaration that expands to several transitions — `t.from_(s1, s2, …, before=[…], on=(…))`,
+    `s.to(t1, t2, …, on=[…])`, `t.from_.any(on=[…])` — gives every one of them the callbacks that were written:
+    fired through the second or a later transition the event returns what C14 says, as through the first"""
+    import random
+    import warnings
+    from statemachine import State, StateMachine
+
+    rng = random.Random(f"{seed}:C14:shared")
+    fails, cases = [], 0
+    for i in range(n):
+        k = rng.randint(2, 4)
+        nb, no = rng.randint(0, 2), rng.randint(0, 3)
+        if nb + no == 0:
+            no = 1
+        kind = rng.choice(["from", "to", "any"])
+        cont = rng.choice([list, tuple])
+        is_async = rng.random() < 0.3
+        rets = {f"b{j}": rng.choice([None, j, f"b{j}", [j]]) for j in range(nb)}
+        rets.update({f"o{j}": rng.choice([None, 10 + j, f"o{j}", (j,)]) for j in range(no)})
+        ns = {}
+        for name, val in rets.items():
+            def cb(self, _v=val):
+                return _v
+            if is_async and name == "o0":
+                async def cb(self, _v=val):     # noqa: F811
+                    return _v
+            ns[name] = cb
+        hub = State("hub", initial=(kind == "to"))
+        others = [State(f"S{j}", initial=(kind != "to" and j == 0)) for j in range(k)]
+        ns["hub"] = hub
+        for j, st in enumerate(others):
+            ns[f"s{j}"] = st
+        kw = {}
+        if nb:
+            kw["before"] = cont(f"b{j}" for j in range(nb))
+        if no:
+            kw["on"] = cont(f"o{j}" for j in range(no))
+        if kind == "from":
+            ns["go"] = hub.from_(*others, **kw)
+            ns["back"] = hub.to(*others, cond="pick") if False else hub.to(others[0])
+            for j in range(1, k):
+                ns[f"back{j}"] = hub.to(others[j])
+        elif kind == "any":
+            ns["go"] = hub.from_.any(**kw)
+            ns["back"] = hub.to(others[0])
+            for j in range(1, k):
+                ns[f"back{j}"] = hub.to(others[j])
+        else:
+            # from the hub to the first target whose guard holds: the guard picks the j-th transition
+            ns["pick"] = -1
+            for j in range(k):
+                ns[f"is{j}"] = property(lambda self, _j=j: self.pick == _j)
+            ns["go"] = hub.to(*others, **kw)      # every transition of the declaration gets the same callbacks…
+            for j, st in enumerate(others):
+                ns[f"back{j}"] = st.to(hub)
+        want_list = [rets[f"b{j}"] for j in range(nb)] + [rets[f"o{j}"] for j in range(no)]
+        want = None if not want_list else want_list[0] if len(want_list) == 1 else want_list
+        try:
+            with warnings.catch_warnings():
+                warnings.simplefilter("ignore")
+                cls = type(StateMachine)("Shared", (StateMachine,), ns)
+                sm = cls()
+                if is_async:
+                    sm.activate_initial_state()
+        except Exception as e:  # noqa: BLE001
+            fails.append(f"[{kind} k={k} {cont.__name__}] construction raised {type(e).__name__}: {e}")
+            continue
+        cases += 1
+        where = f"[{kind}, {k} transitions from one declaration, before={kw.get('before')} on={kw.get('on')} given as " \
+                f"{cont.__name__}, {'async' if is_async else 'sync'}]"
+        try:
+            with warnings.catch_warnings():
+                warnings.simplefilter("ignore")
+                if kind == "to":
+                    # (only the first target is reachable without guards: the per-transition callbacks are read off
+                    # the declared transitions instead)
+                    got = [[sp.func for sp in t._specs if sp.group.name in ("BEFORE", "ON") and not sp.is_convention]
+                           for t in cls.hub.transitions]
+                    exp = [list(kw.get("before", ())) + list(kw.get("on", ()))] * k
+                    if got != exp:
+                        fails.append(f"{where} the transitions carry {got}, declared {exp}")
+                    continue
+                for j in range(k):
+                    if j:
+                        sm.send(f"back{j}")
+                    r = sm.send("go")
+                    if r != want:
+                        fails.append(f"{where} fired from S{j}: returned {r!r}, the callbacks return {want_list!r}")
+                        break
+                    if sm.current_state.id != "hub":
+                        fails.append(f"{where} fired from S{j}: state {sm.current_state.id}")
+                        break
+        except Exception as e:  # noqa: BLE001
+            fails.append(f"{where} raised {type(e).__name__}: {e}")
+        if len(fails) >= 3:
+            break
+    return cases, fails
+
+
 def probe_d45():
     """a plain callback of a machine without coroutine callbacks *returns* an awaitable as its value: `send()` takes
     the event's result for the engine's own coroutine, runs it and hands back what it returns"""
@@ -127,6 +227,10 @@ def run(ctx):
     ctx.coverage["names_like_machine_attributes_cases"] = 30
     if pf:
         ctx.violation(ctx.write_replay("names_like_machine_attributes.txt", "\n".join(pf[:12]) + "\n"), pf[0][:200])
+    ncases, sf = safe_probe(probe_shared_declarations, ctx.seed, 120 if ctx.tier == "quick" else 3000, pair=True)
+    ctx.coverage["shared_declaration_cases"] = ncases
+    if sf:
+        ctx.violation(ctx.write_replay("shared_declarations.txt", "\n".join(sf[:12]) + "\n"), sf[0][:200])
     ctx.coverage["rule"] = ("seeded random machines with 0-3 before x 0-3 on callbacks in every attachment style and "
                             "provider, return pool None/0/''/[]/[1,2]/()/{}/str/float, internal/self/multi-event "
                             "transitions, both engines; non-trivial = an executed transition had >=2 contributing "
